@@ -410,6 +410,17 @@ class Patched:
 STEP_RE = re.compile(r"iter_(\d+)/plate_(\d+)")
 
 
+def named_dir(msg, outdir):
+    """the directory an error message of the script NAMES: the path below the output directory that occurs in the message
+    (whatever the wording), or None.  The recovery step removes exactly that -- never a directory the harness computed."""
+    best = None
+    for m in re.finditer(re.escape(outdir.rstrip(os.sep)) + r"(?:/[^\s'\"`]*)?", msg):
+        cand = m.group(0).rstrip(".,;:)]}>/")
+        if cand != outdir.rstrip(os.sep) and os.path.isdir(cand) and (best is None or len(cand) > len(best)):
+            best = cand
+    return best
+
+
 def step_of_path(outdir, path):
     rel = os.path.relpath(path, outdir)
     m = STEP_RE.match(rel)
@@ -420,8 +431,9 @@ class Run:
     """one case: configuration + list of global interruption points (the n-th point counts the atomic actions
     performed since the previous interruption, across calls of the step function)"""
 
-    def __init__(self, cfg, crashes, workdir, pre=0, restart=False, main=False, signal=False):
+    def __init__(self, cfg, crashes, workdir, pre=0, restart=False, main=False, signal=False, verbose=False):
         self.cfg = cfg
+        self.verbose = verbose    # the script's logger enabled at DEBUG with a formatting handler (what `python batchie.py` has)
         self.signal = signal      # interruptions are delivered as ONE exception (the script's handlers run) instead of a kill
         self.main = main          # drive the script's main() (one call = one process run) instead of the step function
         self.restart = restart or main    # a fresh module object for every call after an interruption / exception (process restart)
@@ -563,7 +575,32 @@ class Run:
         return self._process(max_invocations)
 
     def _process(self, max_invocations):
-        mod = load_script(fresh=self.restart)
+        if not self.verbose:
+            return self._process0(max_invocations)
+        import logging
+        lg = logging.getLogger("batchie_orchestration_script_c19")     # shared by every module object loaded from the script
+        try:
+            with common.verbose_logging():
+                return self._process0(max_invocations)
+        finally:
+            lg.disabled = True
+            lg.handlers = []
+
+    def _enable_log(self, mod):
+        if self.verbose:
+            import logging
+
+            class Sink(logging.Handler):
+                def emit(self, record):
+                    self.format(record)
+            mod.logger.disabled = False
+            mod.logger.setLevel(logging.DEBUG)
+            mod.logger.handlers = [Sink(level=logging.DEBUG)]
+            mod.logger.propagate = False
+
+    def _process0(self, max_invocations):
+        mod = load_script(fresh=self.restart or self.verbose)
+        self._enable_log(mod)
         cfg = self.cfg
         saved = mod.subprocess
         mod.subprocess = types.SimpleNamespace(check_call=self.check_call)
@@ -616,8 +653,8 @@ class Run:
                     except Interrupt:
                         outcome = ("crash",)
                     except RuntimeError as e:
-                        m = re.search(r"Consider deleting this directory to continue simulation: (.*)$", str(e))
-                        outcome = ("named", m.group(1)) if m else ("failed", "RuntimeError")
+                        nd = named_dir(str(e), self.outdir)
+                        outcome = ("named", nd) if nd else ("failed", "RuntimeError")
                     except Runaway:
                         outcome = ("failed", "no-termination")
                     except FakeFailure:
@@ -631,6 +668,7 @@ class Run:
                     if self.restart and outcome[0] not in ("again", "halt"):
                         mod.subprocess = saved
                         mod = load_script(fresh=True)
+                        self._enable_log(mod)
                         saved = mod.subprocess
                         mod.subprocess = types.SimpleNamespace(check_call=self.check_call)
                     self.segments[-1] += g.count
@@ -846,6 +884,7 @@ def run_case(case, workdir, ref_cache=None):
     """-> (run, ref, findings)"""
     cfg, crashes, pre, main = case["cfg"], case["crashes"], case.get("pre", 0), bool(case.get("main"))
     signal = case.get("kind") == "signal"
+    verbose = bool(case.get("verbose"))
     key = (json.dumps(cfg, sort_keys=True), pre, main)
     ref = ref_cache.get(key) if ref_cache is not None else None
     if ref is None:
@@ -853,7 +892,7 @@ def run_case(case, workdir, ref_cache=None):
         ref.cleanup()
         if ref_cache is not None:
             ref_cache[key] = ref
-    run = Run(cfg, crashes, workdir, pre, main=main, signal=signal).go()
+    run = Run(cfg, crashes, workdir, pre, main=main, signal=signal, verbose=verbose).go()
     run.cleanup()
     return run, ref, judge(run, ref)
 
@@ -953,10 +992,10 @@ def real_examine(mod, outdir, B):
         i, j, meta, screen = mod.examine_output_dir_to_determine_current_iteration(outdir, B)
     except RuntimeError as e:
         msg = str(e)
-        m = re.search(r"Consider deleting this directory to continue simulation: (.*)$", msg)
-        if not m:
+        nd = named_dir(msg, outdir)
+        if not nd or step_of_path(outdir, nd) is None:
             return "err:RuntimeError"
-        st = step_of_path(outdir, m.group(1))
+        st = step_of_path(outdir, nd)
         return "named:%s %d %d" % ("invalid" if "invalid structure" in msg else "noanc", st[0], st[1])
     except Exception as e:  # noqa
         return "err:" + type(e).__name__
@@ -1011,8 +1050,10 @@ def explore(cfg, pre, pairs, workdir):
     cache = {}
     results = []
 
-    def one(crashes, main=False, signal=False):
+    def one(crashes, main=False, signal=False, verbose=False):
         case = {"cfg": cfg, "crashes": list(crashes), "pre": pre}
+        if verbose:
+            case["verbose"] = True
         if main:
             case["main"] = True
         if signal:
@@ -1036,6 +1077,10 @@ def explore(cfg, pre, pairs, workdir):
             classes.add("size.excludes>=2")
         if signal:
             classes.add("interruption.signal-style-handlers-run")
+        if verbose:
+            classes.add("verbose-logging")
+        if main:
+            classes.add("entry-point.script-main")
         if not main:
             classes.add("state-reuse.long-lived-module")     # one module object serves every step-function case of a check run
         results.append({"case": case, "line": None if main else run.driver_line(), "observed": run.observed(), "findings": findings,
@@ -1053,12 +1098,18 @@ def explore(cfg, pre, pairs, workdir):
         return results
     n = ref.segments[0]
     one([], main=True)
+    one([], main=True, verbose=True)
+    one([], verbose=True)
     for g1 in range(n):
         r1, _ = one([g1])
         if g1 % 6 == 0:
             one([g1], main=True)
         if g1 % 3 == 1:
             one([g1], signal=True)
+        if g1 % 8 == 2:
+            one([g1], verbose=True)
+        if g1 % 12 == 5:
+            one([g1], main=True, verbose=True)
         if pairs and len(r1.segments) > 1:
             for g2 in range(g1 % pairs, r1.segments[1], pairs):     # pairs = stride (1: every pair; quick tier: 2)
                 one([g1, g2])
